@@ -718,7 +718,10 @@ impl BufferedDatabaseWriter {
         }
         //at the end of the batch, update the daily log with all room dates that needs to be recomputed
         #[cfg(feature = "verif")]
-        crate::verif_hooks::fault("batch.before_marks")?;
+        if let Err(e) = crate::verif_hooks::fault("batch.before_marks") {
+            let _ = conn.execute("ROLLBACK", []);
+            return Err(e);
+        }
         //a failure here must close the transaction like a failure of any query of the batch,
         //otherwise it stays open and every later batch fails at BEGIN
         if let Err(e) = daily_log.write(conn) {
@@ -726,7 +729,10 @@ impl BufferedDatabaseWriter {
             return Err(e);
         }
         #[cfg(feature = "verif")]
-        crate::verif_hooks::fault("batch.before_commit")?;
+        if let Err(e) = crate::verif_hooks::fault("batch.before_commit") {
+            let _ = conn.execute("ROLLBACK", []);
+            return Err(e);
+        }
         if let Err(e) = conn.execute("COMMIT", []) {
             let _ = conn.execute("ROLLBACK", []);
             return Err(e);
